@@ -145,5 +145,27 @@ def make_app(problem):
             self.scheme.configure_solver(kernel=CubicSpline(dim=2),
                                          dt=2e-4, tf=6 * 2e-4, pfreq=1000)
 
+    class Gtvf(Application):
+        """a fluid block stepped by GTVFIntegrator, whose first evaluation
+        of a step is made without refreshing the neighbour search"""
+        def create_particles(self):
+            x, y = np.mgrid[0:0.65 + 1e-9:dx, 0:0.65 + 1e-9:dx]
+            x, y = x.ravel(), y.ravel()
+            pa = get_particle_array(name='fluid', x=x, y=y, h=hdx * dx,
+                                    m=rho0 * dx * dx, rho=rho0,
+                                    u=0.5 * np.sin(7 * y), v=-0.5 * np.sin(5 * x))
+            self.scheme.setup_properties([pa])
+            _ids(pa, 0)
+            return [pa]
+
+        def create_scheme(self):
+            from pysph.sph.wc.gtvf import GTVFScheme
+            return GTVFScheme(['fluid'], [], dim=2, rho0=rho0, c0=c0,
+                              nu=0.01, h0=hdx * dx, pref=c0 * c0 * rho0)
+
+        def configure_scheme(self):
+            self.scheme.configure_solver(kernel=CubicSpline(dim=2),
+                                         dt=2e-4, tf=6 * 2e-4, pfreq=1000)
+
     return {'drop': Drop, 'tank': Tank, 'periodic': Periodic,
-            'collide': Collide}[problem]
+            'collide': Collide, 'gtvf': Gtvf}[problem]
